@@ -135,6 +135,13 @@ class Dataset:
                 fields.append(("datetime", "d2"))
             rnd.shuffle(fields)
             self.descs.append(RecordDescriptor("c16/t%d" % k, fields))
+        # "schema evolution": record types that share a NAME with an earlier one but not their fields
+        base0 = list(self.descs[0].get_field_tuples())
+        self.descs.append(RecordDescriptor("c16/t0", base0 + [("string", "user")]))
+        base1 = [f for f in self.descs[1].get_field_tuples() if f[1] != "s"]
+        self.descs.append(RecordDescriptor("c16/t1", [("string", "user"), ("varint", "n")] + base1))
+        e_only = [f for f in self.descs[2].get_field_tuples() if not f[1].startswith("e")]
+        self.descs.append(RecordDescriptor("c16/t2", e_only))
         self.sources = {}       # name -> dict(path, kind, views, exc)
         self.good = []
         uid = idx * 1000
@@ -154,6 +161,8 @@ class Dataset:
                             kw[n] = rnd.choice([0, 1, 2, 3, 4, 5, 7, 99])
                         elif n == "s":
                             kw[n] = rnd.choice(S_POOL)
+                        elif n == "user":
+                            kw[n] = rnd.choice(["alice", "bob", "x"])
                         elif n in ("d1", "d2"):
                             kw[n] = rnd.choice([None, GEN_TIMES[0], pydt.datetime(2001, 2, 3, 4, 5, 6, tzinfo=pydt.timezone.utc)]) \
                                 if n == "d2" else pydt.datetime(2010 + rnd.randrange(10), 1, 2, 3, 4, 5, tzinfo=pydt.timezone.utc)
@@ -194,6 +203,48 @@ class Dataset:
         p = os.path.join(self.dir, "empty.records")
         open(p, "wb").write(b"")
         self._register("empty", p, "empty")
+        # compressed record files cut 3-12 bytes after the magic (the stream header cannot be decompressed), with the
+        # extension and without it (compression detected from the magic)
+        plain = raw
+        packed = {"gz": (gzip.compress(plain), 2)}
+        try:
+            import bz2
+            packed["bz2"] = (bz2.compress(plain), 3)
+        except ImportError:
+            pass
+        try:
+            import lz4.frame
+            packed["lz4"] = (lz4.frame.compress(plain), 4)
+        except ImportError:
+            pass
+        try:
+            import zstandard
+            packed["zst"] = (zstandard.ZstdCompressor().compress(plain), 4)
+        except ImportError:
+            pass
+        for cname, (data, mlen) in packed.items():
+            cutc = mlen + rnd.randint(3, 12)
+            p = os.path.join(self.dir, "cutearly.records.%s" % cname)
+            open(p, "wb").write(data[:cutc])
+            self._register("cutearly_%s" % cname, p, "cutearly_%s" % cname)
+        cname = rnd.choice(sorted(packed))
+        p = os.path.join(self.dir, "cutearly_noext.records")
+        open(p, "wb").write(packed[cname][0][:packed[cname][1] + rnd.randint(3, 12)])
+        self._register("cutearly_noext", p, "cutearly_noext_%s" % cname)
+        # garbage in the other input formats
+        p = os.path.join(self.dir, "garbage.csv")
+        open(p, "wb").write(b"\xff\xfe" + bytes(rnd.randrange(128, 256) for _ in range(rnd.randint(10, 200))))
+        self._register("garbage_csv", p, "garbage_csv")
+        try:
+            import fastavro  # noqa: F401
+            p = os.path.join(self.dir, "garbage.avro")
+            open(p, "wb").write(bytes(rnd.randrange(256) for _ in range(rnd.randint(20, 300))))
+            self._register("garbage_avro", p, "garbage_avro")
+        except ImportError:
+            pass
+        p = os.path.join(self.dir, "garbage.jsonl")
+        open(p, "wb").write(rnd.choice([b"\xff\xfe{{{\n", b"not json at all\n{]\n", b"[1, 2\n"]))
+        self._register("garbage_jsonl", p, "garbage_jsonl")
         self.faults = [n for n in self.sources if n not in self.good]
         self.all_views = {}
         for s in self.sources.values():
@@ -215,9 +266,11 @@ class Dataset:
 
     def _register(self, name, path, kind):
         from flow.record import RecordReader
-        recs, exc = [], None
+        recs, exc, at_open = [], None, False
         try:
+            at_open = True
             rd = RecordReader(path)
+            at_open = False
             for r in rd:
                 recs.append(r)
             rd.close()
@@ -227,10 +280,15 @@ class Dataset:
             mk = "None" if kind == "good" else "(Some CutCompressed)"
         elif isinstance(exc, OSError):
             mk = "(Some Missing)" if kind == "missing" else "(Some NotAStream)"
+        elif at_open:
+            mk = "(Some OpenError)"
         else:
-            mk = {"trunc_records": "(Some CutRecord)", "trunc_jsonl": "(Some BadLine)"}.get(kind, "(Some OtherError)")
-        self.sources[name] = dict(path=path, kind=kind, views=[view_of(r) for r in recs], model_kind=mk,
-                                  exc=None if exc is None else type(exc).__name__)
+            mk = {"trunc_records": "(Some CutRecord)", "trunc_jsonl": "(Some BadLine)", "garbage_jsonl": "(Some BadLine)"}.get(kind, "(Some OtherError)")
+        views = [view_of(r) for r in recs]
+        if any("uid" not in v["names"] for v in views):
+            raise RuntimeError("harness: source %s (%s) yields records the datasets did not write" % (name, kind))
+        self.sources[name] = dict(path=path, kind=kind, views=views, model_kind=mk,
+                                  exc=None if exc is None else type(exc).__name__, at_open=bool(exc is not None and at_open))
 
 
 # ------------------------------------------------------------------------------------------------
@@ -809,8 +867,8 @@ def coq_case(ds, src_names, opt, sel_views, written, res, writer, impl_ids):
 
 OUTS = ["w:records", "w:jsonl", "w:csvfile", "m:csv", "m:json", "m:jsonlines", "m:line", "m:text", "w:records.gz",
         "m:line-verbose", "w:line", "w:jsonfile", "w:stream-uri"]
-FIELDS = [None, "uid,n", "s,uid,zz", "uid,_source,n", "zz", "e0,uid,d1"]
-EXCLUDES = [None, "s", "n,e0", "_generated", "zz", "uid"]
+FIELDS = [None, "uid,n", "s,uid,zz", "uid,_source,n", "zz", "e0,uid,d1", "uid,user", "user,s,e1"]
+EXCLUDES = [None, "s", "n,e0", "_generated", "zz", "uid", "user", "n"]
 EXPR = "tag = str(_source) + '|' + str(_classification)"
 ABORT_EXPR = "q = str(10 // (n - 3))"
 
@@ -966,7 +1024,7 @@ def plan(ctx, ds, rnd):
         for pos in range(len(good) + 1):
             srcs = good[:pos] + [f] + good[pos:]
             cases.append((srcs, dict(out="w:records")))
-            for _ in range(2 if quick else 6):
+            for _ in range(1 if quick else 5):
                 cases.append((srcs, random_opt(rnd)))
     # two faults, fault only, same source twice
     for _ in range(4 if quick else 20):
@@ -996,6 +1054,15 @@ def plan(ctx, ds, rnd):
         cases.append((good, dict(fields="uid,s", out=out)))
         cases.append((good, dict(exclude="s,_source", out=out)))
         cases.append((good, dict(fmt="{uid}/{n}", fields="uid", exclude="n", out=out)))
+    # record types that share a name but not their fields: projections on fields only one variant has, in both orders
+    for srcs in (good, good[::-1]):
+        for out in ("w:records", "m:jsonlines", "m:csv"):
+            cases.append((srcs, dict(exclude="user", out=out)))
+            cases.append((srcs, dict(exclude="n", out=out)))
+            cases.append((srcs, dict(fields="uid,user,s", out=out)))
+            cases.append((srcs, dict(fields="uid,e0,e1,n", exclude="e1", out=out)))
+            cases.append((srcs, dict(expr=EXPR, out=out)))
+            cases.append((srcs, dict(expr=EXPR, exclude="s", skip=1, out=out)))
     # overrides, expression, multi-timestamp, list
     for out in ("w:records", "m:jsonlines", "m:csv", "w:jsonl"):
         cases.append((good, dict(rsrc="SRC2", rcls="top", out=out)))
@@ -1139,9 +1206,11 @@ def search(ctx, reason):
 
 def run(ctx):
     ctx.coverage["rule"] = (
-        "per dataset (2-4 good sources in .records/.records.gz/.records.bz2/.jsonl of 5-30 records over 3-4 descriptors with "
-        "random extra field types): every fault kind (missing, truncated .records inside a frame, truncated .gz, truncated "
-        ".jsonl, garbage, empty) at every position among the good sources; skip {0,1,3,100} x count {None,0,1,5}; 8 selectors x "
+        "per dataset (2-4 good sources in .records/.records.gz/.bz2/.lz4/.zst/.jsonl of 5-30 records over 6-7 descriptors with "
+        "random extra field types, three of which share their NAME with another one but not their fields): every fault kind "
+        "(missing, truncated .records inside a frame, truncated .gz, truncated .jsonl, garbage, empty, compressed file cut 3-12 "
+        "bytes after the magic for gz/bz2/lz4/zst with and without extension, garbage .csv/.avro/.jsonl) at every position among "
+        "the good sources; skip {0,1,3,100} x count {None,0,1,5}; 8 selectors x "
         "{compiled,-n}; -F x -X lists incl. reserved and unknown names; --record-source/-classification; -E; --multi-timestamp; "
         "-l; --split with -w; 13 outputs (-w .records/.records.gz/.jsonl/csvfile://line://jsonfile://stream://, -m csv/json/"
         "jsonlines/line/line-verbose, default text with and without -f); aborts in the middle of a run.  distinct = distinct "
